@@ -46,6 +46,10 @@ def slices(tier, rng):
         # packed type: fields may sit at offsets that are not multiples of their alignment
         out.append(Slice('equiv-packed-ps%d' % ps, 't_equiv', 16, lambda a, ps=ps: assume(a, ps, 0, 0, 1),
                          opts={'summarize': ['gcd'], 'must_reach': ['ok/ok']}))
+        # packed type with a leading u8: the extern-typed fields sit at misaligned offsets, and explicit addresses / unknown<g> / #[size]
+        # follow a misaligned field
+        out.append(Slice('equiv-packed-misaligned-ps%d' % ps, 't_equiv', 16, lambda a, ps=ps: assume(a, ps, 0, 0, 2),
+                         opts={'summarize': ['gcd'], 'must_reach': ['ok/ok']}))
         # the field after the gap is a #[base] whose type has a vftable (the derived type shares it)
         out.append(Slice('equiv-base-ps%d' % ps, 't_equiv', 16, lambda a, ps=ps: assume(a, ps, 0, 1),
                          opts={'summarize': ['gcd'], 'must_reach': ['ok/ok']}))
